@@ -9,6 +9,7 @@ Import ListNotations.
 Parametricity Recursive c17_check.
 Parametricity Recursive train.
 Parametricity Recursive q_close.
+Parametricity Recursive bopt_fixb.
 
 (* the real-valued data denoted by rational data *)
 Definition stepQR (e : @step Q) : @step R := let '(s, a, r, ns) := e in (s, a, Q2R r, ns).
@@ -94,6 +95,16 @@ Proof.
     auto using list_R_map2.
 Qed.
 
+(* (4) the exact fixed-point test of the optimistic empirical backup (used for non-vacuity) *)
+Theorem bopt_fixb_transfer nS nA m g rmax L Qs :
+  @bopt_fixb Q NumQ nS nA m g rmax L Qs =
+  @bopt_fixb R NumR nS nA m (Q2R g) (Q2R rmax) (learnerQR L) (map2 Q2R Qs).
+Proof.
+  apply bool_R_inv.
+  apply (bopt_fixb_R Q R QR NumQ NumR NumQR); try apply nat_R_refl; try reflexivity;
+    auto using list_R_map2, learner_rel.
+Qed.
+
 (* ------------------------------------------------------------------------------------ *)
 (* End-to-end: if c17_check, as executed by vm_compute on the exact rationals of the      *)
 (* implementation output, returned all-true, the clauses of the property hold over R.     *)
@@ -169,6 +180,20 @@ Theorem main_policy s a :
   (~ 0 < untab2 piR s a -> untab2 piR s a = 0).
 Proof. apply (cert_policy nS nA OR piR (Q2R pt)). apply clauses. Qed.
 
+(* the returned table is close to the optimal Q of the optimistic empirical model (any fixed point
+   Qs of its backup; bopt_residual_bound with delta = 0 shows there is at most one) *)
+Theorem main_near_optimum (Qs : list (list R)) :
+  0 <= Q2R ut -> 0 <= Q2R bt ->
+  (forall s a, (s < nS)%nat -> (a < nA)%nat ->
+     untab2 Qs s a = @bopt R NumR nS nA m (Q2R g) (Q2R rmax) OR Qs s a) ->
+  forall s a, (s < nS)%nat -> (a < nA)%nat ->
+  Rabs (qf OR s a - untab2 Qs s a) <= Rmax (Q2R bt) (Q2R g * Q2R ut) / (1 - Q2R g).
+Proof.
+  intros Hu Hb Hfix.
+  apply (cert_near_empirical_optimum nS nA m (Q2R g) (Q2R rmax) Hm Hg0 Hg1 PR RwR ab iniR epsR OR
+           (Q2R ut) (Q2R bt) Qs Hu Hb); try apply clauses. exact Hfix.
+Qed.
+
 End Main.
 
 (* the mirror run: when the model learner, executed on the recorded experience over exact rationals,
@@ -223,6 +248,20 @@ Example ex_train : @train Q NumQ 3 2 2 (1#2) 1 exTol 100 (experience exEps) = So
 Proof. vm_compute. reflexivity. Qed.
 Example ex_counts : l_cnt exO = [[2; 2]; [1; 1]; [0; 0]]%nat.
 Proof. vm_compute. reflexivity. Qed.
+Definition exQs : list (list Q) := [[2; 1]; [2; 2]; [2; 2]].
+Example ex_fix : @bopt_fixb Q NumQ 3 2 2 (1#2) 1 exO exQs = true.
+Proof. vm_compute. reflexivity. Qed.
 Example ex_check :
   @c17_check Q NumQ 3 2 2 (1#2) 1 exP exRw exAb exIni exEps exO exPi 0 exTol 0 = all_true6.
 Proof. vm_compute. reflexivity. Qed.
+Example ex_all :
+  @train Q NumQ 3 2 2 (1#2) 1 exTol 100 (experience exEps) = Some exO /\
+  l_cnt exO = [[2; 2]; [1; 1]; [0; 0]]%nat /\
+  @c17_check Q NumQ 3 2 2 (1#2) 1 exP exRw exAb exIni exEps exO exPi 0 exTol 0 = all_true6 /\
+  (forall s a, (s < 3)%nat -> (a < 2)%nat ->
+     untab2 (map2 Q2R exQs) s a =
+     @bopt R NumR 3 2 2 (Q2R (1#2)) (Q2R 1) (learnerQR exO) (map2 Q2R exQs) s a).
+Proof.
+  split; [exact ex_train|]. split; [exact ex_counts|]. split; [exact ex_check|].
+  apply bopt_fixb_spec. rewrite <- bopt_fixb_transfer. exact ex_fix.
+Qed.
